@@ -183,7 +183,8 @@ class VM:
 
     def run(self, compiled: CompiledFunction) -> JSValue:
         """Run compiled bytecode and return result."""
-        self.start_time = time.monotonic()
+        if self.start_time is None:  # a nested evaluation keeps its parent's deadline
+            self.start_time = time.monotonic()
 
         # Create initial call frame
         frame = CallFrame(
@@ -199,6 +200,19 @@ class VM:
             return self._execute()
         except Exception as e:
             raise
+
+    def share_budget(self, parent: "VM") -> None:
+        """Make this nested evaluation (eval, Function) spend its parent's budget.
+
+        It keeps the parent's deadline, goes on counting instructions where the
+        parent stopped (so the clock is polled at the same rate) and sits one
+        level deeper on the host stack.
+        """
+        if parent.native_depth >= MAX_NATIVE_DEPTH:
+            raise MemoryLimitError("Maximum call stack size exceeded")
+        self.start_time = parent.start_time
+        self.instruction_count = parent.instruction_count
+        self.native_depth = parent.native_depth + 1
 
     def _check_limits(self) -> None:
         """Check memory and time limits."""
